@@ -9,6 +9,8 @@ use crate::probes::{TokenExec, TokenExecClient};
 use crate::world::*;
 use axelar_soroban_std::types::Token;
 use proptest::prelude::*;
+#[allow(unused_imports)]
+use crate::prop_oneof;
 use serde::{Deserialize, Serialize};
 use soroban_sdk::token::TokenClient;
 use soroban_sdk::xdr::ScVal;
@@ -101,8 +103,8 @@ fn op() -> impl Strategy<Value = Op> {
     prop_oneof![
         2 => (0u8..2, prop_oneof![Just(NCfg::Supply1000NoMinter), Just(NCfg::Supply0Minter), Just(NCfg::Supply0NoMinter)]).prop_map(|(slot, cfg)| Op::Deploy { slot, cfg }),
         2 => (0u8..3).prop_map(|slot| Op::Register { slot }),
-        8 => (0u8..NU as u8, 0u8..5, 0u8..3, amt(), proptest::option::of(0u8..40), gas()).prop_map(|(user, tok, chain, amount, data, gas)| Op::Out { user, tok, chain, amount, data, gas }),
-        7 => (0u8..5, prop_oneof![4 => 0u8..NU as u8, 1 => NU as u8..(NU as u8 + 3)], 0u8..3, amt(), proptest::option::of(0u8..40)).prop_map(|(tok, to, origin, amount, data)| Op::In { tok, to, origin, amount, data }),
+        8 => (0u8..NU as u8, 0u8..5, 0u8..3, amt(), crate::engine::opt_of(0u8..40), gas()).prop_map(|(user, tok, chain, amount, data, gas)| Op::Out { user, tok, chain, amount, data, gas }),
+        7 => (0u8..5, prop_oneof![4 => 0u8..NU as u8, 1 => NU as u8..(NU as u8 + 3)], 0u8..3, amt(), crate::engine::opt_of(0u8..40)).prop_map(|(tok, to, origin, amount, data)| Op::In { tok, to, origin, amount, data }),
         3 => (0u8..3).prop_map(Op::Trust),
         1 => (0u8..3).prop_map(Op::Untrust),
         1 => (0u8..2, 0u8..NU as u8, 1u8..100).prop_map(|(slot, to, amount)| Op::MinterMint { slot, to, amount }),
